@@ -219,8 +219,16 @@ struct StreamState {
     buf: Arc<Mutex<StreamBuf>>,
 }
 
+/// A call left running in the background by a `BG` op.
+enum BgOut {
+    Line(OpResult),
+    Pull(Result<Result<deltio::pubsub_proto::PullResponse, i32>, Fail>),
+}
+
 struct Ctx {
-    app: Deltio,
+    app: Arc<Deltio>,
+    /// Background calls (`BG <id> <op>`), joined by `JOIN <id>`.
+    bg: BTreeMap<String, tokio::task::JoinHandle<BgOut>>,
     publisher: PublisherClient<Channel>,
     subscriber: SubscriberClient<Channel>,
     streams: BTreeMap<String, StreamState>,
@@ -253,7 +261,10 @@ async fn run_ops(case: &Case, lines: Arc<Mutex<Vec<String>>>, report_bg: bool) {
     for line in &case.ops {
         let res = exec(&mut ctx, line).await;
         let stop = res.is_err();
-        if !stop {
+        // BG / CANCEL / YIELD are scheduling directives: the next op starts without
+        // letting the runtime settle first.
+        let directive = matches!(line.split(' ').next(), Some("BG") | Some("CANCEL") | Some("YIELD"));
+        if !stop && !directive {
             quiesce(&ctx).await;
         }
         let bg = if report_bg {
@@ -308,7 +319,8 @@ async fn start() -> Result<Ctx, Fail> {
         Ok(Ok(c)) => c,
     };
     Ok(Ctx {
-        app,
+        app: Arc::new(app),
+        bg: BTreeMap::new(),
         publisher: PublisherClient::new(channel.clone()),
         subscriber: SubscriberClient::new(channel),
         streams: BTreeMap::new(),
@@ -465,6 +477,14 @@ impl Ctx {
     }
 }
 
+/// `exec` for a spawned background call (boxed: `exec` mentions itself through `BG`).
+fn exec_boxed<'a>(
+    ctx: &'a mut Ctx,
+    line: String,
+) -> std::pin::Pin<Box<dyn std::future::Future<Output = OpResult> + Send + 'a>> {
+    Box::pin(async move { exec(ctx, &line).await })
+}
+
 /// Executes one op line.
 async fn exec(ctx: &mut Ctx, line: &str) -> OpResult {
     let resolved = ctx.resolve_refs(line);
@@ -472,6 +492,82 @@ async fn exec(ctx: &mut Ctx, line: &str) -> OpResult {
     let mut t = Toks::new(line);
     let op = t.next().map_err(bad)?;
     match op {
+        "BG" => {
+            let id = t.next().map_err(bad)?.to_string();
+            let inner: String = line.splitn(3, ' ').nth(2).unwrap_or("").to_string();
+            let kind = inner.split(' ').next().unwrap_or("").to_string();
+            let handle = if kind == "PULL" {
+                let mut it = Toks::new(&inner);
+                let _ = it.next();
+                let subscription = it.str().map_err(bad)?;
+                let max_messages: i32 = it.num().map_err(bad)?;
+                let ri: i32 = it.num().map_err(bad)?;
+                it.end().map_err(bad)?;
+                let mut client = ctx.subscriber.clone();
+                tokio::spawn(async move {
+                    #[allow(deprecated)]
+                    let req = PullRequest {
+                        subscription,
+                        max_messages,
+                        return_immediately: ri != 0,
+                    };
+                    BgOut::Pull(call(client.pull(req)).await)
+                })
+            } else {
+                let mut sub = Ctx {
+                    app: Arc::clone(&ctx.app),
+                    bg: BTreeMap::new(),
+                    publisher: ctx.publisher.clone(),
+                    subscriber: ctx.subscriber.clone(),
+                    streams: BTreeMap::new(),
+                    ptimes: Vec::new(),
+                    acks: ctx.acks.clone(),
+                };
+                tokio::spawn(async move { BgOut::Line(exec_boxed(&mut sub, inner).await) })
+            };
+            ctx.bg.insert(id, handle);
+            Ok("BG".to_string())
+        }
+        "JOIN" => {
+            let id = t.next().map_err(bad)?.to_string();
+            t.end().map_err(bad)?;
+            let finished = ctx.bg.get(&id).map(|h| h.is_finished());
+            match finished {
+                None | Some(false) => Ok(format!("JOIN {} -", id)),
+                Some(true) => {
+                    let h = ctx.bg.remove(&id).unwrap();
+                    match h.await {
+                        Err(e) if e.is_cancelled() => Ok(format!("JOIN {} cancelled", id)),
+                        Err(e) => Err(Fail::Panic(format!("background call panicked: {}", e))),
+                        Ok(BgOut::Line(r)) => Ok(format!("JOIN {} {}", id, r?)),
+                        Ok(BgOut::Pull(r)) => Ok(match r? {
+                            Ok(resp) => format!("JOIN {} PULL 0 {}", id, ctx.fmt_msgs(&resp.received_messages)),
+                            Err(code) => format!("JOIN {} PULL {}", id, code),
+                        }),
+                    }
+                }
+            }
+        }
+        "CANCEL" => {
+            let id = t.next().map_err(bad)?.to_string();
+            t.end().map_err(bad)?;
+            if let Some(h) = ctx.bg.get(&id) {
+                h.abort();
+            }
+            Ok("CANCEL".to_string())
+        }
+        "YIELD" => {
+            let k: usize = t.num().map_err(bad)?;
+            t.end().map_err(bad)?;
+            for _ in 0..k {
+                tokio::task::yield_now().await;
+            }
+            Ok("YIELD".to_string())
+        }
+        "Q" => {
+            t.end().map_err(bad)?;
+            Ok("Q".to_string())
+        }
         "SEED" => {
             let _: u64 = t.num().map_err(bad)?;
             t.end().map_err(bad)?;
